@@ -608,7 +608,7 @@ pub fn run(args: &Args) -> Report {
     let thorough = args.thorough();
     let mut cases = Vec::new();
     for sc in scenarios(thorough) {
-        cases.push(Case { label: format!("{} | local produces {} B, peer script {:?}, peer window {}, lazy_ack={}", sc.name, sc.local_out, sc.peer, sc.peer_rwnd, sc.lazy_ack), exec: Box::new(move |r| exec(&sc, r)) });
+        cases.push(Case { try_unbounded: false, max_k: u32::MAX, label: format!("{} | local produces {} B, peer script {:?}, peer window {}, lazy_ack={}", sc.name, sc.local_out, sc.peer, sc.peer_rwnd, sc.lazy_ack), exec: Box::new(move |r| exec(&sc, r)) });
     }
     let plan = Plan {
         ks: if thorough { vec![0, 1, 2, 3] } else { vec![0, 1, 2] },
